@@ -301,9 +301,44 @@ class Fn:
                 self.sub(new, {name: v if v is not None else ast.Constant(value=None)}), kt, kf))
         return self.branch_value(test, kt, kf)
 
+    def split_ifexp(self, node):
+        """(test, node with the first conditional expression replaced by its body, ... by its orelse) or None"""
+        found = []
+
+        class F(ast.NodeVisitor):
+            def visit_IfExp(s2, n):
+                if not found:
+                    found.append(n)
+
+            def generic_visit(s2, n):
+                if not found:
+                    super().generic_visit(n)
+        F().visit(node)
+        if not found:
+            return None
+        target = found[0]
+
+        def repl(which):
+            class R(ast.NodeTransformer):
+                def visit_IfExp(s2, n):
+                    if n is tgt:
+                        return copy.deepcopy(getattr(n, which))
+                    return s2.generic_visit(n)
+            c = copy.deepcopy(node)
+            # find the corresponding node in the copy (same position in a preorder walk)
+            orig_nodes = [n for n in ast.walk(node) if isinstance(n, ast.IfExp)]
+            copy_nodes = [n for n in ast.walk(c) if isinstance(n, ast.IfExp)]
+            tgt = copy_nodes[orig_nodes.index(target)]
+            return ast.fix_missing_locations(R().visit(c))
+        return target.test, repl('body'), repl('orelse')
+
     def branch_value(self, v, kt, kf):
         if v is None:
             return kf()
+        sp = self.split_ifexp(v)
+        if sp is not None:
+            test, a, b = sp
+            return self.branch_s(test, lambda: self.branch_s(a, kt, kf), lambda: self.branch_s(b, kt, kf))
         c = self.cond_s(v)
         if c == 'CT':
             return kt()
@@ -350,7 +385,10 @@ class Fn:
             if self.contains_helper(val):
                 name, call, new = self.hoist(val, {})
                 return self.inline(self.helper_of(call), call, lambda v: self.block(
-                    [ast.Return(value=new)], {name: v if v is not None else ast.Constant(value=None)}, k, kret))
+                    [ast.fix_missing_locations(ast.Return(value=new, lineno=1, col_offset=0))], {name: v if v is not None else ast.Constant(value=None)}, k, kret))
+            if isinstance(val, ast.IfExp):
+                return self.branch_s(val.test, lambda: self.block([ast.fix_missing_locations(ast.Return(value=val.body, lineno=1, col_offset=0))], {}, k, kret),
+                                     lambda: self.block([ast.fix_missing_locations(ast.Return(value=val.orelse, lineno=1, col_offset=0))], {}, k, kret))
             return kret(val)
         if isinstance(s, ast.Raise):
             if s.exc is None:
@@ -376,6 +414,11 @@ class Fn:
                     env2[name] = Bound(text, idx, truth)
                     outs.append(self.block(rest, env2, k, kret))
                 return '(DIf (CA %d) %s %s)' % (idx, outs[0], outs[1])
+            if isinstance(val, ast.IfExp):
+                # x = a if c else b: decided where it is bound (c is evaluated there)
+                def bound(v):
+                    return self.block([ast.fix_missing_locations(ast.Assign(targets=s.targets, value=v, lineno=1, col_offset=0))] + list(rest), env, k, kret)
+                return self.branch_s(val.test, lambda: bound(val.body), lambda: bound(val.orelse))
             if isinstance(val, ast.Call) and self.helper_of(val) is not None:
                 def after(v):
                     env2 = dict(env)
@@ -388,7 +431,7 @@ class Fn:
                 def after2(v):
                     env2 = dict(env)
                     env2[hname] = v if v is not None else ast.Constant(value=None)
-                    return self.block([ast.Assign(targets=s.targets, value=new)] + list(rest), env2, k, kret)
+                    return self.block([ast.fix_missing_locations(ast.Assign(targets=s.targets, value=new, lineno=1, col_offset=0))] + list(rest), env2, k, kret)
                 return self.inline(self.helper_of(call), call, after2)
             env2 = dict(env)
             env2[name] = val
@@ -396,7 +439,8 @@ class Fn:
         if isinstance(s, ast.If):
             def kk(e2):
                 return self.block(rest, e2, k, kret)
-            if self.contains_helper(self.sub(s.test, env)):
+            tsub = self.sub(s.test, env)
+            if self.contains_helper(tsub) or any(isinstance(n, ast.IfExp) for n in ast.walk(tsub)):
                 return self.branch(s.test, env, lambda: self.block(s.body, env, kk, kret),
                                    lambda: self.block(s.orelse, env, kk, kret))
             c = self.cond(s.test, env)
